@@ -112,10 +112,12 @@ FaultExp(op, a) ==
          IF ~FaultOk(a) THEN ExpAny
          ELSE LET n == Len(FaultEnc(a)) IN
               IF a.w = 0 THEN [cls |-> "acc", gen |-> IF a.kind = "pdu" THEN "acc" ELSE "na",
-                               crcfn |-> IF a.kind = "pdu" THEN "na" ELSE "ok", octets |-> FaultEnc(a)]
+                               crcfn |-> IF a.kind = "pdu" THEN "na" ELSE "ok", octets |-> FaultEnc(a),
+                               view |-> IF a.kind = "pdu" THEN "na" ELSE "ok"]
               ELSE IF BurstLegal(a, n)
                    THEN [cls |-> "rej", gen |-> IF a.kind = "pdu" THEN "rej" ELSE "na",
-                         crcfn |-> IF a.kind = "pdu" THEN "na" ELSE "bad", octets |-> FaultEnc(a)]
+                         crcfn |-> IF a.kind = "pdu" THEN "na" ELSE "bad", octets |-> FaultEnc(a),
+                         view |-> IF a.kind = "pdu" THEN "na" ELSE "ok"]
                    ELSE ExpAny
     [] op = "stream.split" ->
          LET full == [lens |-> [i \in DOMAIN a.units |-> Len(UnitEnc(a.units[i]))],
